@@ -1,68 +1,108 @@
 // Harness for C20: interprets range scripts against Bpp/Numeric/Range.h
-// instantiated at int, unsigned int and double (chosen by the `case` line).
+// instantiated at int, unsigned int and double (chosen by the `case` line:
+// `case <tag> int|uint|double [scale]`).  A script integer n stands for the coordinate
+// n / scale (scale is 1 except for double), and a coordinate v is printed as v * scale.
 #include "common.h"
 #include <Bpp/Numeric/Range.h>
 #include <memory>
 using namespace bpp; using namespace verif;
 
-struct IMachine { virtual ~IMachine() {} virtual std::string op(const Toks& t) = 0; };
+static_assert(sizeof(unsigned int) == 4, "the model of `unsigned` is UInt32");
+static_assert(sizeof(size_t) == 8, "the model of the totalLength accumulator is modulo 2^64");
 
-template<class T> static std::string num(T v) {
-  // all values in scripts are integers; print as integer in every instantiation
-  std::ostringstream os; os << static_cast<long long>(v); return os.str();
-}
+struct IMachine { virtual ~IMachine() {} virtual std::string op(const Toks& t) = 0; };
 
 template<class T> struct Machine : IMachine {
   std::vector<std::unique_ptr<MultiRange<T>>> mr;
   std::vector<std::unique_ptr<RangeSet<T>>> rs;
-  Machine() { for (int i = 0; i < 4; ++i) { mr.emplace_back(new MultiRange<T>()); rs.emplace_back(new RangeSet<T>()); } }
-  static T val(const std::string& s) { return static_cast<T>(toI(s)); }
-  std::string show(const RangeCollection<T>& c) {
+  long long scale;
+  explicit Machine(long long sc) : scale(sc) { for (int i = 0; i < 4; ++i) { mr.emplace_back(new MultiRange<T>()); rs.emplace_back(new RangeSet<T>()); } }
+  T val(const std::string& s) const { return static_cast<T>(static_cast<T>(toI(s)) / static_cast<T>(scale)); }
+  std::string num(T v) const { std::ostringstream os; os << static_cast<long long>(v * static_cast<T>(scale)); return os.str(); }
+  // the full observation of a collection through the RangeCollection interface:
+  //   <getRange(i).begin end>* ; totalLength ; size isEmpty ; <bounds>* ; toString
+  std::string show(const RangeCollection<T>& c, const std::string& bounds) const {
     std::string s;
     for (size_t i = 0; i < c.size(); ++i) { s += num(c.getRange(i).begin()) + " " + num(c.getRange(i).end()) + " "; }
-    s += "; " + std::to_string(static_cast<long long>(c.totalLength()));
+    s += "; " + std::to_string(static_cast<unsigned long long>(c.totalLength()));
+    s += " ; " + std::to_string(static_cast<unsigned long long>(c.size())) + " " + (c.isEmpty() ? "1" : "0");
+    s += " ; " + bounds + "; " + c.toString();
     return s;
+  }
+  std::string showMr(size_t k) const {
+    std::string b; for (T v : mr[k]->getBounds()) b += num(v) + " ";
+    return show(*mr[k], b);
+  }
+  std::string showRs(size_t k) const {
+    // RangeSet has no getBounds(): read the exposed vector (getSet) instead
+    const RangeSet<T>& c = *rs[k];
+    std::string b; for (const Range<T>* r : c.getSet()) b += num(r->begin()) + " " + num(r->end()) + " ";
+    return show(c, b);
   }
   std::string op(const Toks& t) override {
     const std::string& o = t[0];
-    if (o == "mr.add") { size_t k = toU(t[1]); mr[k]->addRange(Range<T>(val(t[2]), val(t[3]))); return show(*mr[k]); }
-    if (o == "mr.restrict") { size_t k = toU(t[1]); mr[k]->restrictTo(Range<T>(val(t[2]), val(t[3]))); return show(*mr[k]); }
-    if (o == "mr.filter") { size_t k = toU(t[1]); mr[k]->filterWithin(Range<T>(val(t[2]), val(t[3]))); return show(*mr[k]); }
-    if (o == "mr.clear") { size_t k = toU(t[1]); mr[k]->clear(); return show(*mr[k]); }
-    if (o == "mr.copy") { size_t k = toU(t[1]), j = toU(t[2]); std::unique_ptr<MultiRange<T>> c(new MultiRange<T>(*mr[k])); mr[j] = std::move(c); return show(*mr[j]); }
-    if (o == "mr.assign") { size_t k = toU(t[1]), j = toU(t[2]); if (k != j) *mr[j] = *mr[k]; return show(*mr[j]); }
-    if (o == "mr.get") { size_t k = toU(t[1]); return show(*mr[k]); }
-    if (o == "rs.add") { size_t k = toU(t[1]); rs[k]->addRange(Range<T>(val(t[2]), val(t[3]))); return show(*rs[k]); }
-    if (o == "rs.restrict") { size_t k = toU(t[1]); rs[k]->restrictTo(Range<T>(val(t[2]), val(t[3]))); return show(*rs[k]); }
-    if (o == "rs.filter") { size_t k = toU(t[1]); rs[k]->filterWithin(Range<T>(val(t[2]), val(t[3]))); return show(*rs[k]); }
-    if (o == "rs.clear") { size_t k = toU(t[1]); rs[k]->clear(); return show(*rs[k]); }
-    if (o == "rs.copy") { size_t k = toU(t[1]), j = toU(t[2]); std::unique_ptr<RangeSet<T>> c(new RangeSet<T>(*rs[k])); rs[j] = std::move(c); return show(*rs[j]); }
-    if (o == "rs.assign") { size_t k = toU(t[1]), j = toU(t[2]); if (k != j) *rs[j] = *rs[k]; return show(*rs[j]); }
-    if (o == "rs.get") { size_t k = toU(t[1]); return show(*rs[k]); }
+    if (o == "mr.add") { size_t k = toU(t[1]); mr[k]->addRange(Range<T>(val(t[2]), val(t[3]))); return showMr(k); }
+    if (o == "mr.restrict") { size_t k = toU(t[1]); mr[k]->restrictTo(Range<T>(val(t[2]), val(t[3]))); return showMr(k); }
+    if (o == "mr.filter") { size_t k = toU(t[1]); mr[k]->filterWithin(Range<T>(val(t[2]), val(t[3]))); return showMr(k); }
+    if (o == "mr.clear") { size_t k = toU(t[1]); mr[k]->clear(); return showMr(k); }
+    if (o == "mr.copy") { size_t k = toU(t[1]), j = toU(t[2]); std::unique_ptr<MultiRange<T>> c(new MultiRange<T>(*mr[k])); mr[j] = std::move(c); return showMr(j); }
+    if (o == "mr.assign") { size_t k = toU(t[1]), j = toU(t[2]); *mr[j] = *mr[k]; return showMr(j); }
+    if (o == "mr.get") { size_t k = toU(t[1]); return showMr(k); }
+    if (o == "mr.at" || o == "rs.at") {
+      size_t k = toU(t[1]), i = toU(t[2]);
+      const RangeCollection<T>& c = (o == "mr.at") ? static_cast<const RangeCollection<T>&>(*mr[k]) : static_cast<const RangeCollection<T>&>(*rs[k]);
+      if (i >= c.size()) return "oob";   // undefined behaviour of the library: not called
+      return num(c.getRange(i).begin()) + " " + num(c.getRange(i).end());
+    }
+    if (o == "rs.add") { size_t k = toU(t[1]); rs[k]->addRange(Range<T>(val(t[2]), val(t[3]))); return showRs(k); }
+    if (o == "rs.restrict") { size_t k = toU(t[1]); rs[k]->restrictTo(Range<T>(val(t[2]), val(t[3]))); return showRs(k); }
+    if (o == "rs.filter") { size_t k = toU(t[1]); rs[k]->filterWithin(Range<T>(val(t[2]), val(t[3]))); return showRs(k); }
+    if (o == "rs.clear") { size_t k = toU(t[1]); rs[k]->clear(); return showRs(k); }
+    if (o == "rs.copy") { size_t k = toU(t[1]), j = toU(t[2]); std::unique_ptr<RangeSet<T>> c(new RangeSet<T>(*rs[k])); rs[j] = std::move(c); return showRs(j); }
+    if (o == "rs.assign") { size_t k = toU(t[1]), j = toU(t[2]); *rs[j] = *rs[k]; return showRs(j); }
+    if (o == "rs.get") { size_t k = toU(t[1]); return showRs(k); }
     if (o == "r.pred") {
       Range<T> x(val(t[1]), val(t[2])), r(val(t[3]), val(t[4]));
       return num(x.begin()) + " " + num(x.end()) + " " + (x.overlap(r) ? "1" : "0") + " " + (x.isContiguous(r) ? "1" : "0") + " "
-        + (x.contains(r) ? "1" : "0") + " " + (x.isEmpty() ? "1" : "0") + " " + num(x.length());
+        + (x.contains(r) ? "1" : "0") + " " + (x.isEmpty() ? "1" : "0") + " " + num(x.length())
+        + " " + (x == r ? "1" : "0") + " " + (x != r ? "1" : "0") + " " + (x < r ? "1" : "0") + " " + x.toString();
     }
     if (o == "r.expand") { Range<T> x(val(t[1]), val(t[2])), r(val(t[3]), val(t[4])); x.expandWith(r); return num(x.begin()) + " " + num(x.end()); }
     if (o == "r.slice") { Range<T> x(val(t[1]), val(t[2])), r(val(t[3]), val(t[4])); x.sliceWith(r); return num(x.begin()) + " " + num(x.end()); }
     if (o == "r.shift") {
       Range<T> x(val(t[1]), val(t[2])); T v = val(t[3]);
-      Range<T> y = x + v; Range<T> z = y - v;
-      return num(y.begin()) + " " + num(y.end()) + " " + num(y.length()) + " " + num(z.begin()) + " " + num(z.end());
+      Range<T> y = x + v; Range<T> z = y - v;      // operator+ then operator-
+      Range<T> u = x - v; Range<T> w = u + v;      // operator- then operator+ (unsigned: wraps below zero)
+      Range<T> p(x); p += v; p -= v;               // operator+= then operator-=
+      Range<T> q(x); q -= v; T ql = q.length(); q += v;
+      return num(y.begin()) + " " + num(y.end()) + " " + num(y.length()) + " " + num(z.begin()) + " " + num(z.end())
+        + " " + num(u.length()) + " " + num(w.begin()) + " " + num(w.end())
+        + " " + num(p.begin()) + " " + num(p.end()) + " " + num(ql) + " " + num(q.begin()) + " " + num(q.end());
+    }
+    if (o == "r.ctor") {
+      Range<T> d; Range<T> one(val(t[1]));
+      return num(d.begin()) + " " + num(d.end()) + " " + num(one.begin()) + " " + num(one.end()) + " " + (d.isEmpty() ? "1" : "0");
+    }
+    if (o == "r.copy") {
+      Range<T> x(val(t[1]), val(t[2])); T v = val(t[3]);
+      std::unique_ptr<Range<T>> c(x.clone()); Range<T> y(x); Range<T> z; z = x;
+      *c += v;   // the clone is independent of its source
+      return num(x.begin()) + " " + num(x.end()) + " " + num(c->begin()) + " " + num(c->end()) + " "
+        + num(y.begin()) + " " + num(y.end()) + " " + num(z.begin()) + " " + num(z.end());
     }
     return "bad-op";
   }
 };
 
 int main() {
-  std::unique_ptr<IMachine> m(new Machine<int>());
+  std::unique_ptr<IMachine> m(new Machine<int>(1));
   return runLoop(
     [&](const Toks& t) {
       std::string ty = t.size() > 2 ? t[2] : "int";
-      if (ty == "uint") m.reset(new Machine<unsigned int>());
-      else if (ty == "double") m.reset(new Machine<double>());
-      else m.reset(new Machine<int>());
+      long long sc = (ty == "double" && t.size() > 3) ? toI(t[3]) : 1;
+      if (ty == "uint") m.reset(new Machine<unsigned int>(1));
+      else if (ty == "double") m.reset(new Machine<double>(sc));
+      else m.reset(new Machine<int>(1));
     },
     [&](const Toks& t) { return m->op(t); });
 }
